@@ -11,6 +11,8 @@
 """
 import math
 
+import numpy as np
+
 from geodepy.convert import polar2rect, rect2polar
 from geodepy.survey import (joins, radiations, va_conv, first_vel_params, first_vel_corrn, phase_refractivity,
                             group_refractivity, humidity2part_water_vapour_press, part_h2o_vap_press)
@@ -156,14 +158,37 @@ def gen_atm(tier, seed):
     for w in WAVE:
         for t in ts:
             yield {'wave': w, 'temp': t}
+    # temperatures evaluated one after the other in ONE process: -1 and -2 (which CPython hashes to the same value) in both
+    # orders, as floats and as ints; the instrument parameters held in a float64 array that is reused for every call
+    for w in (0.658, 0.85):
+        yield {'wave': w, 'temps': [-1.0, -2.0, -1.0, 15.0, -2.0], 'parform': 'tuple'}
+        yield {'wave': w, 'temps': [-2, -1, -2, 0, -1], 'parform': 'array'}
+        yield {'wave': w, 'temps': [15.0, 15.0, 25.0], 'parform': 'array'}
 
 
 def ev_atm(case, rec):
-    w, t = case['wave'], case['temp']
-    st, par = rec.call(first_vel_params, w, None, NREF)
-    if st != 'ok':
-        rec.fail('first_vel_params raised', site='survey:first_vel_params', observed=par, case=case)
+    if 'temps' in case:
+        shared = {}
+        for t in case['temps']:
+            c1 = {k: v for k, v in case.items() if k != 'temps'}
+            c1['temp'] = t
+            ev_atm1(c1, rec, shared)
         return
+    ev_atm1(case, rec, {})
+
+
+def ev_atm1(case, rec, shared):
+    w, t = case['wave'], case['temp']
+    if 'par' in shared:
+        par = shared['par']
+    else:
+        st, par = rec.call(first_vel_params, w, None, NREF)
+        if st != 'ok':
+            rec.fail('first_vel_params raised', site='survey:first_vel_params', observed=par, case=case)
+            return
+        if case.get('parform') == 'array':
+            par = np.array(par, dtype=float)
+            shared['par'], shared['par0'] = par, par.tobytes()
     sig = 1.0 / w
     for p in PRES:
         for rh in HUM:
@@ -240,6 +265,10 @@ def ev_atm(case, rec):
                 rec.fail('first velocity correction is not defined for a valid atmosphere given by a wet-bulb temperature',
                          site='survey:first_vel_corrn:wetbulb', observed=c, case=dict(case, pres=p, wet=wet), coords={'temp': t, 'wet': wet})
                 rec.outcome('raise-wet')
+    if 'par0' in shared and shared['par'].tobytes() != shared['par0']:
+        rec.fail('first_vel_corrn modified the parameter array supplied by the caller', site='survey:first_vel_corrn:argument',
+                 observed=shared['par'], case=case)
+        shared['par0'] = shared['par'].tobytes()
     rec.sample(case)
 
 
